@@ -5,8 +5,11 @@ unit classes with units, unit modifiers, value classes, attribute definitions, h
 """
 import xml.etree.ElementTree as ET
 
-SPECIAL_NODE_ATTRS = {"requireChild", "tagGroup", "topLevelTagGroup", "unique", "required", "deprecatedFrom",
-                      "reserved", "rooted", "recommended", "position", "predicateType", "default"}
+# attributes that attach a placement / uniqueness / deprecation rule to a node and (conservatively) its subtree
+SPECIAL_NODE_ATTRS = {"tagGroup", "topLevelTagGroup", "unique", "required", "deprecatedFrom",
+                      "reserved", "recommended", "position", "predicateType", "default"}
+# names the HED specification (and hed-python) treats specially whatever the schema version says
+RESERVED_NAMES = {"onset", "offset", "inset", "duration", "delay", "def", "def-expand", "definition", "event-context"}
 
 
 def _attrs(elem, tag="attribute"):
@@ -123,12 +126,33 @@ class SchemaOracle:
     def is_plain(self, node):
         """Neither the node nor an ancestor nor a descendant-less special: carries no placement/uniqueness/deprecation rule."""
         for n in node.ancestors():
-            if SPECIAL_NODE_ATTRS & set(n.attrs):
+            if SPECIAL_NODE_ATTRS & set(n.attrs) or n.name.casefold() in RESERVED_NAMES:
                 return False
         return True
 
     def plain_nodes(self):
-        return [n for n in self.nodes if self.is_plain(n) and not n.takes_value]
+        """Nodes usable bare anywhere: no rule attribute on the node or an ancestor, no '#' child, no requireChild."""
+        return [n for n in self.nodes if self.is_plain(n) and not n.takes_value and "requireChild" not in n.attrs]
+
+    def require_child_nodes(self):
+        return [n for n in self.nodes if "requireChild" in n.attrs and self.is_plain(n)]
+
+    def extension_nodes(self):
+        """Plain nodes under which an extension is certainly permitted: extensionAllowed on the node or an ancestor,
+        with no value-taking node on the way up to it (hed stops inheritance there)."""
+        out = []
+        for n in self.plain_nodes():
+            for a in n.ancestors():
+                if a.takes_value:
+                    break
+                if "extensionAllowed" in a.attrs:
+                    out.append(n)
+                    break
+        return out
+
+    def no_extension_nodes(self):
+        """Plain nodes under which an extension is certainly forbidden: no extensionAllowed anywhere on the path."""
+        return [n for n in self.plain_nodes() if not n.has_inherited("extensionAllowed")]
 
     def value_nodes(self):
         return [n for n in self.nodes if n.takes_value and self.is_plain(n)
